@@ -330,6 +330,8 @@ def select (O : Ops F) (op : Op F) (w : Witness F) (pop : Pop F) : Except Err (P
     | .ok (some b) =>
       .ok ((pop.zip ss).flatMap fun (ind, s) => ind :: b :: pick (pop.filter (fun j => !sameInd j ind)) s)
   | .iwo minSel maxSel, _ =>
+    -- ensure!(min_selected <= max_selected) comes first, before any objective is read
+    if maxSel < minSel then .error .exec else
     match pop with
     | [] => .error .exec
     | _ =>
@@ -340,7 +342,6 @@ def select (O : Ops F) (op : Op F) (w : Witness F) (pop : Pop F) : Except Err (P
         | none => .error .exec
         | some (worst, bst) =>
           if !O.fin worst then .error .exec
-          else if maxSel < minSel then .error .panic      -- u32 `max_selected - min_selected` overflows
           else .ok ((pop.zip objs).flatMap fun (ind, o) => List.replicate (iwoCount O minSel maxSel worst bst o) ind)
   | _, _ => .error .panic                                 -- witness of the wrong shape
 
@@ -535,7 +536,8 @@ def violation (op : Op Float) (cur : FPop) (rest : List FPop) (stack' : List FPo
   let errRequired : Bool := match op with
     | .cloneSingle _ => len != 1
     | .randomWithoutRepetition n => len < n
-    | .rouletteWheel _ _ | .sus _ _ | .iwo _ _ => hasInf
+    | .rouletteWheel _ _ | .sus _ _ => hasInf
+    | .iwo a b => hasInf || b < a
     | .tournament _ size => len < size
     | _ => false
   let errAllowed : Bool := errRequired || match op with
